@@ -18,7 +18,7 @@ RULE = (
     "truncation- and suffix-faulted variants (warn mode), incl. failed responses of every response-code format, lists of "
     "structures, empty lists and buffers followed by warnings; expected rows: one per structure / primitive / warning, one "
     "per byte buffer with all its bytes standing where its last element was, bit rows for attribute words that are not list "
-    "elements, indentation = path depth, value column = text form; failed responses of 12 response codes of every format and words of every attribute type printed back to back in one process (shuffled, reversed); distinct = distinct (type/code, fault, mode, row count) cases"
+    "elements, indentation = path depth, value column = text form; failed responses of 12 response codes of every format and words of every attribute type printed back to back in one process (shuffled, reversed); a third of the completed decodes are also printed from a list, a tuple and directly from the live decoder (lazy pipeline) and must give the same lines; distinct = distinct (type/code, fault, mode, row count) cases"
 )
 ASSUMPTIONS = [
     "the row of a non-byte list parent may stand at its position or later; it is required when the list has no element rows",
@@ -221,6 +221,33 @@ def check(case, rec, modes=(True, False)):
         rec.case((case.sig, mode, len(t.events)), nontrivial=bool(t.events))
         check_pretty(t, case, mode, rec)
         check_events_printer(t, case, mode, rec)
+        if t.outcome[0] == "ok" and rec.counters.get("pretty_rows", 0) % 3 == 0:
+            check_feeds(t, case, strict, mode, rec)
+
+
+def check_feeds(t, case, strict, mode, rec):
+    """The printers are generators over any iterable of events: fed with a list, with an iterator, or directly with the
+    live decoder (the lazy pipeline the command line uses) they must print the same lines."""
+    from tpmstream.io.events import Events
+    from tpmstream.io.pretty import Pretty
+
+    raw = [e.raw for e in t.events]
+    for name, printer in (("pretty", Pretty), ("events", Events)):
+        try:
+            a = [norm(l) for l in printer.unmarshal(iter(raw))]
+            b = [norm(l) for l in printer.unmarshal(raw)]
+            c = [norm(l) for l in printer.unmarshal(TR.open_decode(case.t, case.d, strict, case.cc, case.enc))]
+            d = [norm(l) for l in printer.unmarshal(tuple(raw))]
+        except Exception as ex:
+            rec.violation("printer-feed", f"{name}:raises:{TR.mechanism(ex)}", f"{case.short()} mode={mode}\n{name} printer fed with a list / tuple / the live decoder raised {type(ex).__name__}: {ex}", case.replay(mode=mode))
+            continue
+        rec.count("printer_feed_comparisons")
+        for label, other in (("a list", b), ("the live decoder", c), ("a tuple", d)):
+            if other != a:
+                i = next((k for k, (x, y) in enumerate(zip(a, other)) if x != y), min(len(a), len(other)))
+                rec.violation("printer-feed", f"{name}:{label.split()[-1]}", f"{case.short()} mode={mode}\n{name} printer fed with {label} prints {len(other)} lines, fed with an iterator {len(a)}; first difference at line {i}: "
+                                                                           f"{other[i] if i < len(other) else None!r} vs {a[i] if i < len(a) else None!r}", case.replay(mode=mode))
+                break
 
 
 RC_CODES = (0x100, 0x1C4, 0x101, 0x9A2, 0xB03, 0x500, 0x98E, 0x084, 0x2C3, 0x12F, 0xD21, 0x000)
@@ -273,7 +300,7 @@ def run_shard(shard, rec):
 
 def finish(m, tier):
     inc = []
-    for k in ("pretty_rows", "warning_rows", "bit_rows", "buffer_rows", "event_lines", "sequence_streams"):
+    for k in ("pretty_rows", "warning_rows", "bit_rows", "buffer_rows", "event_lines", "sequence_streams", "printer_feed_comparisons"):
         if not m["counters"].get(k):
             inc.append(f"no {k}")
     return dict(inconclusive=inc)
